@@ -1379,6 +1379,30 @@ fn sub_ci(out: &mut Vec<GSpec>) {
     });
 }
 
+/// Case-insensitive literals with punctuation, as rules of their own (which alternative wins shows in the tree).
+fn sub_cip(out: &mut Vec<GSpec>) {
+    let rules = vec![
+        RuleSpec::new("kb", 'N', "^\"a[\""),
+        RuleSpec::new("kk", 'N', "\"a{\" | \"A{\""),
+        RuleSpec::new("o", 'N', "kb | kk"),
+        RuleSpec::new("os", 'S', "(kb | kk)+"),
+        RuleSpec::new("oa", 'C', "!kb ~ kk"),
+    ];
+    assert!(valid(&rules));
+    out.push(GSpec {
+        id: "sub_cip".into(),
+        family: "sub".into(),
+        quick: true,
+        rules,
+        alphabet: "aA[{".into(),
+        max_len: 4,
+        max_len_thorough: 5,
+        all_forms: true,
+        compare: true,
+        ..Default::default()
+    });
+}
+
 /// F-unicode: one rule per Unicode property name and per ASCII / NEWLINE built-in (C01).
 fn unicode(out: &mut Vec<GSpec>) {
     let mut names: Vec<String> = pest::unicode::unicode_property_names().map(|s| s.to_string()).collect();
@@ -1687,6 +1711,7 @@ pub fn all(out: &mut Vec<GSpec>) {
     if want("sub") {
         sub(out);
         sub_ci(out);
+        sub_cip(out);
     }
     if want("unicode") {
         unicode(out);
